@@ -58,6 +58,7 @@ func c11Schedules(c *mon.Ctx) {
 	traces := c.DistinctSet("nontrivial")
 	var stop atomic.Bool
 	var mu sync.Mutex
+	var prunedTotal atomic.Int64
 	explore := func(cat string, p *sched.Program, bound int, cap int64) {
 		if stop.Load() {
 			return
@@ -76,8 +77,17 @@ func c11Schedules(c *mon.Ctx) {
 		for t := range res.Traces {
 			traces.AddHash(t ^ ph)
 		}
-		if res.BlockedBehindParked {
-			c.Inconclusive("a worker waits for a go-libaudit lock while another worker is parked at a yield point inside an operation: a lock is held across a yield point/callback, which the controlled scheduler cannot schedule (the re-entrant programs decide whether it deadlocks); program " + p.String())
+		c.Add("schedules_pruned_lock_held_by_parked_worker", res.Pruned)
+		if prunedTotal.Add(res.Pruned) > 400 && !stop.Load() {
+			// every dropped schedule costs a goroutine dump and leaves blocked goroutines behind: a tree that
+			// holds a lock across yield points is not explored further by this process
+			stop.Store(true)
+			if c.Violations() == 0 && !res.Deadlock && len(res.Findings) == 0 {
+				c.Inconclusive("more than 400 schedules dropped in this process because a go-libaudit lock is held across a yield point or callback (the chosen worker waits for a lock whose holder is parked); last program " + p.String())
+			}
+		}
+		if res.BlockedBehindParked && !res.Deadlock && len(res.Findings) == 0 {
+			c.Inconclusive("more than 3000 schedules of one program dropped: " + "a worker waits for a go-libaudit lock while another worker is parked at a yield point inside an operation: a lock is held across a yield point/callback, which the controlled scheduler cannot schedule (the re-entrant programs decide whether it deadlocks); program " + p.String())
 			stop.Store(true)
 			return
 		}
@@ -169,6 +179,15 @@ func c11Schedules(c *mon.Ctx) {
 			if run.Deadlock {
 				c.Violation("deadlock", fmt.Sprintf("worker blocked on a mutex inside go-libaudit; program %s choices %v\n%s", p.String(), run.Choices, clipStr(run.Dump, 1500)), kase)
 				stop.Store(true)
+			} else if run.BlockedBehindParked {
+				// infeasible random choice, see Explore; every one leaves blocked goroutines behind
+				c.Add("schedules_pruned_lock_held_by_parked_worker", 1)
+				if prunedTotal.Add(1) > 400 && !stop.Load() {
+					stop.Store(true)
+					if c.Violations() == 0 {
+						c.Inconclusive("more than 400 schedules dropped in this process because a go-libaudit lock is held across a yield point or callback; last program " + p.String())
+					}
+				}
 			} else {
 				c.Inconclusive("random schedule: worker did not reach its next yield point within 10s; program " + p.String())
 			}
@@ -213,6 +232,7 @@ func c11Stress(c *mon.Ctx) {
 		c.Add("pushes", res.Pushes)
 		c.Add("messages_delivered", res.Delivered)
 		c.Add("callbacks", res.Callbacks)
+		c.Add("records_pushed_from_callbacks", res.Reentrant)
 		c.Add("pushes_returned_before_close", res.BeforeClose)
 		c.Nontrivial(res.Config)
 		c.Sample(map[string]any{"stress_config": res.Config, "pushes": res.Pushes, "delivered": res.Delivered, "callbacks": res.Callbacks, "pushes_before_close": res.BeforeClose})
